@@ -11,23 +11,25 @@ import random
 from vlib.pipeline import Case
 from vlib import gen
 from props import factor_common as fc
+from props import c01_rho as rh
 
 PID = "C01"
 GEN = ["primality"]
-LEAN = ["Ymq.Props.C01", "Ymq.Props.C01Closed", "Ymq.Props.C01Closed2"]
+LEAN = ["Ymq.Props.C01", "Ymq.Props.C01Closed", "Ymq.Props.C01Closed2"] + rh.LEAN
 AUDIT = "Ymq.Audit.C01"
 THEOREMS = ['Ymq.C01.factor_sound', 'Ymq.C01.factor_no_one', 'Ymq.C01.retain_residue_one', 'Ymq.C01.combineDiv_prod', 'Ymq.C01.combineDiv_no_panic', 'Ymq.C01.factorImpl_prod', 'Ymq.C01.factor_exact', 'Ymq.C01.oracleOK_of_models', 'Ymq.C01.factor_exact_closed', 'Ymq.C01.factor_total_closed',
             'Ymq.C01.oracleOK_of_models_v2', 'Ymq.C01.factor_exact_closed_v2', 'Ymq.C01.factor_total_closed_v2', 'Ymq.C01.trial_divided_noSmall',
-            'Ymq.C01.squfofModel_exactSeed', 'Ymq.C01.qs64_model_violates_oracleOK_clause']
+            'Ymq.C01.squfofModel_exactSeed', 'Ymq.C01.qs64_model_violates_oracleOK_clause'] + rh.THEOREMS_CLOSED3 + rh.THEOREMS_RHO
 PROFILES = ["release", "chk"]
 TIMEOUT = 120.0
 RULE = ("first, in both tiers, composites with 2 or 3 prime factors of exactly 65, 127..129, 191..193, ..., 447..449, 499, 500 bits (ecm; auto on the 64k sizes); then "
         "n = product of primes drawn from size classes (tiny..52 bit quick, ..90 bit thorough) in the shapes "
         "semiprime/three/many/prime/prime-power/square-of-composite/p2q/close/fb-factor/smooth-times-prime/repeated, "
         "plus 0,1,2..300; every selector inside its size precondition; preference combinations threads/fb/lf/dbl/isz; "
-        "non-trivial = composite n; distinct by request line")
+        "non-trivial = composite n; distinct by request line || " + rh.RULE)
 MODELLED = ["lib.rs factor / factor_impl / check_factors line by line (Ymq/Model/Factor.lean); sub-algorithms are oracle "
             "parameters (arbitrary in the theorems, the recorded trace of the real run in the replay)"]
+MODELLED = MODELLED + rh.MODELLED
 UNMODELLED = ["bnum Uint operators and num_integer::gcd are taken as Nat arithmetic (wrap modulo 2^1024 modelled in check_factors only)",
               "contracts of the sub-algorithms (every split multiplies to its argument) are hypotheses here, established under C11/C16"]
 HYPOTHESES = ["closed forms (C01Closed): OracleOK is derived for oracles that ARE the models of perfect_power (C08), final_step (C11), rho64 / P-1 result extraction / ECM exits (C16); residual: squfof's f < n, the UnexpectedFactor exit's d < n", 'OracleOK (Lemmas/FactorOracle.lean): every split returned for m multiplies to m with parts < m; sieve divisors divide m (established for the real sub-algorithms under C11/C16)']
@@ -80,6 +82,7 @@ def boundary_cases(rng, tier):
 
 def cases(tier, rng, extended=False):
     yield from boundary_cases(_fork(rng, "C01-boundary"), tier)
+    yield from rh.cases(tier, _fork(rng, "C01-rho"), extended)
     quick = tier == "quick"
     count = 600 if quick else 1500
     if extended:
@@ -124,6 +127,8 @@ def cases(tier, rng, extended=False):
 
 
 def oracle(case, ans):
+    if case.op in rh.OPS:
+        return rh.oracle(case, ans)
     kind, fs, trace, md = fc.parse_answer(ans)
     n = int(case.args[0])
     if kind != "ok":
@@ -143,15 +148,30 @@ def oracle(case, ans):
     return None
 
 
-followup = fc.replay_request
+def followup(case, ans):
+    """the trace replay through the control-flow model, and — version 3 of the closed theorems — the recorded answers of
+    perfect_power and rho re-asked to their whole-function MODELS (premises `PerfectPowerModel`, `RhoModel`)"""
+    if case.op != "factor":
+        return None
+    out = []
+    rp = fc.replay_request(case, ans)
+    if rp:
+        out.append(rp)
+    trace = fc.parse_answer(ans)[2]
+    out += rh.model_followups(trace)
+    return out or None
 
 
 def klass(case, ans):
+    if case.op in rh.OPS:
+        return rh.klass(case, ans)
     kind = fc.parse_answer(ans)[0]
     return f"{case.args[1]}/{case.tag or 'x'}/{kind}"
 
 
 def nontrivial(case, ans):
+    if case.op in rh.OPS:
+        return rh.nontrivial(case, ans)
     n = int(case.args[0])
     return n > 3 and not gen.is_prime(n)
 
